@@ -89,7 +89,15 @@ pub const BODIES: &[&str] = &[
     // 41: types of a required module reached through an alias of the module value (the
     // bundler renames and hoists exported types; `types` is not bound to a require call)
     "local types = dep0\nexport type Id = number\nexport type Pair<K, V> = { key: K, value: V }\nlocal function pick(v: types.Id): types.Pair<types.Id, string>\n\treturn { key = v, value = tostring(v) }\nend\nmark({M}, pick)\nreturn { pick = pick }\n",
+    // 42..44: files without any statement (empty, blank lines, comments only): they still get
+    // their output
+    "",
+    "\n\n   \n",
+    "-- only a comment {M}\n--[[ and a block\ncomment ]]\n",
 ];
+
+/// Index of the first body without any statement.
+pub const FIRST_EMPTY_BODY: usize = 42;
 
 /// Bodies that declare and use exported types (several bundled modules then export the same
 /// type names).
